@@ -12,6 +12,7 @@ from __future__ import annotations
 
 from harness import inputs, progs, tl
 from harness import universe as U
+from harness.core import st
 from harness.oracles import deep_same, diff_bucket, exc_bucket, snapshot, why_different
 from harness.props.c01 import value_labels
 
@@ -89,6 +90,8 @@ def check_idempotent(p, src, kind, col):
 
 
 def per_program(p):
+    if p.data is not None and p.draw(st.integers(0, 2)) == 0:
+        p.warm("marshaller")   # the routines of the other direction built first
     try:
         vs = U.values(p.spec, p.mat, max_elems=3)
     except U._Exhausted:
